@@ -8,7 +8,7 @@ import itertools
 from .. import core
 from ..refs import semver as ref
 
-ALPHABET = ["0", "1", "9", "a", "Z", "-", ".", "+", "v", "٣", "é"]
+ALPHABET = ["0", "1", "9", "a", "Z", "-", ".", "+", "v", "٣", "é", "\u212a", "\u017f"]   # incl. Kelvin sign and long s (case-fold to k / s)
 PREFIXES = ["1.2.3", "v0.0.9", "1.2.3-", "1.2.3+", "1.2.3-a.", "1.2.3-0.", "10.1.0-rc.1+", "1.2.3-a+", "0.0.", "1."]
 EDIT_CHARS = ALPHABET + ["\n", " ", "\x00", "１", "𝟙", "_", "A", "z", "5", "V", "\t", "²"]
 MINIMUMS = (20000, 200)
@@ -154,7 +154,8 @@ def work_check_binary(bins, strings):
 # -- generators ---------------------------------------------------------------
 def gen_version(rng):
     nums = [0, 1, 2, 9, 10, 99, 2 ** 31, 2 ** 32, 2 ** 63, 2 ** 64 - 1]
-    idents = ["alpha", "beta", "rc", "a", "Z", "-", "--", "x-y", "0a", "00a", "a0", "1a", "-1", "0-0", "post", "dev", "A-Z"]
+    idents = ["alpha", "beta", "rc", "a", "Z", "-", "--", "x-y", "0a", "00a", "a0", "1a", "-1", "0-0", "post", "dev", "A-Z",
+              "abcdefghijklmnopqrst", "1234567890123456789a", "0123456789abcdef0123456789abcdef01234567", "feature-some-long-branch-name", "a" * 64, "-" * 21, "9" * 19 + "x"]
     s = "%d.%d.%d" % (rng.choice(nums), rng.choice(nums), rng.choice(nums))
     if rng.random() < 0.7:
         k = rng.randrange(1, 6)
